@@ -152,7 +152,7 @@ def check_expr_mode(expr, mode, only_assign=None):
         case = {"expr": expr, "assign": a, "mode": mode}
         r = I.try_call(lambda: M.run(mode, lambda: I.requirement_constraint_evaluation(expr), rc=a,
                                      fc={k: (True, None) for k in fckeys},
-                                     hints={k: (f"Hinweis {k}" if i % 2 == 0 else "") for i, k in enumerate(hkeys)}))  # '' is a legal text
+                                     hints={k: (f"Hinweis {k}" if (i + len(rckeys)) % 2 == 0 else "") for i, k in enumerate(hkeys)}))  # '' is a legal text
         if r[0] == "exc":
             out.append({"kind": "evaluation-raised/" + mode, "case": case, "expected": list(exp), "observed": r[1], "msg": expr})
         elif (r[1].requirement_constraints_fulfilled, r[1].requirement_is_conditional) != exp:
